@@ -11,7 +11,7 @@ RUN_TIMEOUT = {"quick": 900, "thorough": 3400}
 P = 2**64 - 2**32 + 1
 
 TRUSTED = [
-    "Coq 8.16.1 kernel and its bytecode VM (vm_compute for the psi-table checks, the 64 basis vectors of the coset NTT, intt(ntt(e_i)) = e_i); no native_compute",
+    "Coq 8.16.1 kernel and its bytecode VM (vm_compute for the psi-table checks, the 64 basis vectors of the coset NTT, intt(ntt(e_i)) = e_i, the 64x64 unit-vector pairs of the index formula, the 256 byte values of the bit recomposition, the toy KEM example); no native_compute",
     "lattice.rs calls the base-field operations (+, -, *, BFieldElement::new, value) verified under C01; the model works on field VALUES: (a + b) mod p, (a - b) mod p, (a * b) mod p with p = BFieldGen.P regenerated from b_field_element.rs. Derived PartialEq on BFieldElement words coincides with equality of values because representations are canonical (C01_repr_unique)",
     "tools/gen/gen_lattice.py: both psi tables (source constructor BFieldElement::new, i.e. values, not raw Montgomery words; a from_raw_u64 table would be converted with the C01 `val`), N_INV, N, LOGN and the numeric constants of sampling, embedding, extraction and the KEM call sites are regenerated from lattice.rs on every run; psi_tables_ok and the basis-vector computations are re-proved against them",
     "modelled by hand (coq/model/Lattice.v), tied by the 2-profile correspondence run only: loop structure of coset_ntt_noswap_64 / coset_intt_noswap_64 (as generators of the butterfly schedule), ring and module operations, the three module multiplication strategies, sampling, embed/extract, kem::{keygen, enc, dec}, Ciphertext <-> [BFieldElement; 320]",
@@ -23,7 +23,7 @@ ASSUMPTIONS = [
     "dec(enc(..)) = Some key is proved CONDITIONAL: C18_dec_enc_noise_partial assumes that every 16-bit lane of every coefficient of the noise term b.c - d.a (sums of negacyclic products of the short secret vectors) is at most 2^14 - 3 in absolute value, C18_dec_enc_partial assumes the weaker decoding condition directly; that the bound holds except with negligible probability over the seeds is a cryptographic estimate outside this technique (the unconditional statement is kept as Definition C18_dec_enc_full; every generated KEM run is checked to round-trip)",
     "'a modified ciphertext / an unrelated key is rejected' is proved in the precise form C18_dec_accepts_only_reencryptions: acceptance implies the ciphertext IS the deterministic re-encryption of the payload it decodes to; that no such ciphertext other than the honest one can be found is a cryptographic assumption",
     "the debug_assert_eq! shape checks of the module multiplications are not modelled; all call sites and all harness instantiations use consistent shapes",
-    "LatticeSpec.negacyclic (schoolbook product in Z[X], folded modulo X^64+1, reduced modulo p) is the specification used in the theorems; its coefficient-by-coefficient form negacyclic_explicit and a native zarith implementation of the index formula are compared with the model on every ring-product case (SPECDIFF), not proved equal in Coq",
+    "two specifications of the ring product are proved equal on all ring elements (LatticeSpec.negacyclic: schoolbook product in Z[X] folded modulo X^64+1; negacyclic_coeff: the index formula c_k = sum_{i+j=k} a_i b_j - sum_{i+j=k+64} a_i b_j mod p); the oracle additionally compares every ring product with a native zarith implementation of the index formula (SPECDIFF)",
     "inputs of other lengths than the array types allow ([BFieldElement; 64], [u8; 32], [BFieldElement; 320]) are not representable and not modelled",
 ]
 RULE = ("spanning set (all 64x64 unit-vector pairs) and boundary-grid coefficient vectors for ring products, every module shape "
